@@ -77,6 +77,8 @@ def run_check(prop, lens, args, seed, known, t0):
     # 1. known findings: pinned replays ------------------------------------------
     kf_report = []
     tasks = []
+    # (a fixed entry without a replay was shown by a stand-alone script: nothing to re-run here)
+    known = [k for k in known if k.get("replay")]
     for k in known:
         rp = _load_json(os.path.join(world.VERIF, k["replay"]))
         tasks.append({"scenario": rp["scenario"]})
